@@ -39,13 +39,25 @@ const (
 
 var entNames = []string{"Encrypt", "EncryptNew", "EncryptZero", "EncryptZeroNew"}
 
-// Signatures of the input classes on which the unchanged tree is known (FINDINGS.md) to violate the
-// property. Every other leaf uses the generic signatures "C03/encrypt/<key>/<clause>".
+// Signatures of the input classes on which the unchanged tree violates the property (triaged:
+// replayed, reduced to a standalone program against the public API — see FINDINGS.md). Every other
+// leaf uses the generic signatures "C03/encrypt/<key>/<clause>".
 const (
-	sigMontSk    = "C03/Encryptor[sk].EncryptZero/IsMontgomery-target/flag-ignored-output-not-in-flagged-domain"
+	// encryptZeroSk / encryptZeroSkFromC1 never look at ct.IsMontgomery: the output is the plain
+	// (−a·s+e, a) but stays flagged IsMontgomery=true; read as documented (rlwe.CiphertextMetaData) its
+	// error is e·R^-1 mod Q. encryptZeroPk (with P) honours the flag, so the key kinds disagree.
+	sigMontSk = "C03/Encryptor[sk].EncryptZero/IsMontgomery-target/flag-ignored-output-not-in-flagged-domain"
+	// same omission in encryptZeroPkNoP (parameters without P)
 	sigMontPkNoP = "C03/Encryptor[pk,no-P].EncryptZero/IsMontgomery-target/flag-ignored-output-not-in-flagged-domain"
-	sigDeg2Sk    = "C03/Encryptor[sk].EncryptZero/degree-2-target/c1-discarded"
-	sigDeg0Pk    = "C03/Encryptor[pk].EncryptZero/degree-0-target/panic-instead-of-error"
+	// encryptZeroSk: "if ct.Degree()==1 {c1 = ct.Value[1]} else {c1 = buffQP[1].Q}" was written for the
+	// compressed degree-0 form; a degree-2 target takes the else branch too: c0 = −a·s+e is written, a
+	// stays in the buffer, the ciphertext decrypts to a uniform polynomial, no error is returned.
+	sigDeg2Sk = "C03/Encryptor[sk].EncryptZero/degree-2-target/c1-discarded"
+	// a degree-0 *Ciphertext (accepted by the sk encryptor) makes encryptZeroPk(NoP) index ct.Value[1]:
+	// panic where the doc promises an error. Low severity; turn into "rejected" here if not admitted.
+	sigDeg0Pk = "C03/Encryptor[pk].EncryptZero/degree-0-target/panic-instead-of-error"
+	// rlwe consequence of the C17 defect (TernarySampler.AtLevel keeps `sample` bound to the full-level
+	// sampler): xeSampler.AtLevel(l).ReadAndAdd(c0) on a polynomial with l+1 < max rows panics.
 	sigTernaryXe = "C03/Encryptor.EncryptZero/Xe=Ternary,level<max,non-NTT-target/panic(TernarySampler.AtLevel)"
 )
 
@@ -146,6 +158,70 @@ func encScenario(rt ring.Type, logN int, ch rk.Chain, np, bound int) engine.Scen
 			}
 		}
 		cf.dec = c.Choose(3, "dec")
+		if k := cf.knownClass(); k != "" {
+			// A finding must not mask other violations (the engine keeps at most 200 violating leaves
+			// per worker): the input classes with a known defect are judged, with their own
+			// signature, on the representative leaves of known/enc/* and not again here.
+			c.Skip("input class with a known defect, judged in known/enc/*")
+			return
+		}
+		runEnc(c, name, cf)
+	}}
+}
+
+// knownEncScenario: representative leaves of every input class on which the unchanged tree violates
+// the property (FINDINGS.md). Same oracle (runEnc), one stable signature per class.
+func knownEncScenario(rt ring.Type, logN int, ch rk.Chain, np int) engine.Scenario {
+	ch = withP(ch, np)
+	name := fmt.Sprintf("known/enc/%s/logN%d/%s/P%d", ringName(rt), logN, ch.Name, np)
+	return engine.Scenario{Name: name, Bound: -1, Fn: func(c *engine.Chooser) {
+		n := 1 << logN
+		def := rk.Params(ch.Lit(logN, maxLogN, rt, true, xsAlphabet(n)[0], xeAlphabet()[0]))
+		ter := rk.Params(ch.Lit(logN, maxLogN, rt, false, xsAlphabet(n)[0], xeAlphabet()[2]))
+		L := def.MaxLevel()
+		base := encCfg{params: def, level: L, ctLevel: L, ptLevel: L, degree: 1, isNTT: true}
+		var list []encCfg
+		add := func(f func(cf *encCfg)) {
+			cf := base
+			f(&cf)
+			list = append(list, cf)
+		}
+		for _, ent := range []int{entEncrypt, entEncryptZero, entEncryptNew} {
+			ent := ent
+			for _, ntt := range []bool{true, false} {
+				ntt := ntt
+				add(func(cf *encCfg) { cf.entry, cf.mont, cf.isNTT = ent, true, ntt })              // sk, IsMontgomery
+				add(func(cf *encCfg) { cf.entry, cf.mont, cf.isNTT, cf.pk = ent, true, ntt, true }) // pk: defect only without P
+			}
+		}
+		for _, ent := range []int{entEncrypt, entEncryptZero} {
+			ent := ent
+			add(func(cf *encCfg) { cf.entry, cf.degree = ent, 2 })                        // sk, degree-2 target
+			add(func(cf *encCfg) { cf.entry, cf.degree, cf.pk = ent, 0, true })           // pk, degree-0 target
+			add(func(cf *encCfg) { cf.entry, cf.degree, cf.pk = ent, 2, true })           // pk, degree-2 target: fine
+			add(func(cf *encCfg) { cf.entry, cf.degree, cf.prov = ent, 0, provWithPRNG }) // sk, compressed form: fine
+		}
+		if L > 0 {
+			for _, pk := range []bool{false, true} {
+				pk := pk
+				for _, ent := range []int{entEncryptZero, entEncryptZeroNew, entEncrypt} {
+					ent := ent
+					add(func(cf *encCfg) { // ternary Xe, below the maximum level, outside the NTT domain
+						cf.params, cf.xeI, cf.entry, cf.pk, cf.isNTT = ter, 2, ent, pk, false
+						cf.level, cf.ctLevel, cf.ptLevel = L-1, L-1, L-1
+					})
+				}
+			}
+		}
+		cf := list[c.ChooseFree(len(list), "case")]
+		if cf.entry == entEncryptZero || cf.entry == entEncryptZeroNew {
+			cf.pat = 1
+		}
+		if k := cf.knownClass(); k != "" {
+			c.Cover("known-class", k)
+		} else {
+			c.Cover("known-class", "none(control)")
+		}
 		runEnc(c, name, cf)
 	}}
 }
@@ -426,7 +502,7 @@ func runEnc(c *engine.Chooser, name string, cf encCfg) {
 		}
 
 		es = append(es, rk.HashPoly(e))
-		c1s = append(c1s, rk.HashPoly(uni.PolyCoeffs(rQ, el.Value[1], cf.level, el.IsNTT, el.IsMontgomery)))
+		c1s = append(c1s, rk.HashPoly(rk.PolyCoeffs(rQ, el.Value[1], cf.level, el.IsNTT, el.IsMontgomery)))
 		for _, x := range e {
 			if x.Sign() != 0 {
 				nonZero++
